@@ -1,6 +1,6 @@
 (** Extraction of the runnable C18 model (ExtrOcamlBasic only). *)
 From Coq Require Import Extraction ExtrOcamlBasic.
-Require Import Celma.Text.TextBlockModel Celma.Text.Usage Celma.Text.UsageAgain.
+Require Import Celma.Text.TextBlockModel Celma.Text.Usage Celma.Text.UsageAgain Celma.Text.UsagePath.
 Require Celma.ArgH.Key.
 Extraction Language OCaml.
-Extraction "../ocaml/gen/c18_model.ml" eval_case eval_case_txt eval_case_sg check_texts Key.parse_key user_arg digest unlines eval_case_again.
+Extraction "../ocaml/gen/c18_model.ml" eval_case eval_case_txt eval_case_sg check_texts Key.parse_key user_arg digest unlines eval_case_again eval_case_path.
